@@ -1,23 +1,27 @@
 """C12 -- DHT network: announced blobs are findable until expiry, paging is complete, lookups terminate.
 
-Leg A (models, exhaustive):
+Leg A (models, exhaustive; all TLC runs are started first and run next to the real-code legs):
   DhtLookup.tla  one IterativeFinder (node or value lookup) against an arbitrary environment: every probe is answered by a
-                 contact list (any subset, incl. the searcher itself), a value page (short/full, fresh/duplicate/bad
-                 addresses, page count 0/1/huge), an error, garbage or silence; every subset of the remote nodes
-                 dead/hostile; virtual clock with rpc_timeout.  Progress, TimeBound, ProbeOncePerPage,
-                 NodeResultsRepliedOnly, NeverSelf, ValueResultsWellFormed; BoundedPages is violated for the code as found
-                 (known finding: a responsive hostile pager) and holds with the page cap; negative controls for the
-                 `contacted` bookkeeping and the `peer_is_good is True` filter.
-  DhtStore.tla   N honest nodes, XOR metric, k-buckets, join through a bootstrap node, iterative lookups probe by probe,
-                 store with token, expiry (> as in data_store.py), message duplication/reordering: Hit, NoHitAfter,
-                 StoredAtClosest; plus the page arithmetic (server formula and client continuation rule transcribed
-                 literally) for every n <= 100 with the real K = 8: PagingComplete, as found vs ceiling division.
+                 contact list, a value page (plain / bad addresses / "follow": full fresh page + inflated page count), a reply
+                 raising ValueError, a reply on which another exception escapes, an error, or silence; so every subset of the
+                 remote nodes dead/hostile; virtual clock with rpc_timeout.  Progress, Parallelism, ProbeDeadline,
+                 ProbeOncePerPage, TimeBound, NodeBound, NodeResultsRepliedOnly, NeverSelf, ValueResultsWellFormed, deadlock
+                 freedom; BoundedPages / ValueBound are violated for the code as found (PAGECAP = 0: a responsive hostile
+                 pager) and hold with a page cap; negative controls MARK / FILTER / CLEARBAD; reachability witnesses.
+  DhtStore.tla   honest nodes, XOR metric, k-buckets with closest-K admission, join through a bootstrap node, lookups probe
+                 by probe (replies in any order), store with token, late and duplicated store requests, expiry `>` as in
+                 data_store.py: Hit, NoHitAfter, StoredAtClosest for EVERY saturated table assignment (warm) and from a cold
+                 start (join + refresh reach saturation); negative control GE (>=).
+  DhtPaging.tla / MCDhtPaging.tla   the server's page-count formula and the client's continuation rule transcribed literally,
+                 every n <= 100 with the real K = 8: PagingComplete fails at n = 89, 97, 98 for the formula as found and holds
+                 for ceiling division; TLC emits the expected (returned, page count, requests) per n.
 Leg C (primary binding): 2..40 REAL lbry.dht.node.Node objects in one process under DetLoop on a driver-controlled datagram
   network (delay, reordering, duplication; for the termination part also loss, dead nodes and scripted hostile responders
   emitting real datagrams).  Recorded per lookup: start/end virtual time, every probe, every yielded peer, who replied;
-  per announce: stored-to set and store times; clock jumps to 24 h -/+ epsilon and to exactly 24 h; per paging experiment
-  (1..100 announcers stored on ONE real node through real store datagrams, fetched with the real IterativeValueFinder):
-  which announcers came back.  Every record is judged by TLC in DhtTrace.tla (one step per record)."""
+  per announce: stored-to set and store times; clock jumps to 24 h - 30 s, 24 h - 1/1024 s, exactly 24 h, 24 h + 400 s; per
+  paging experiment (1..100 announcers stored on ONE real node through real token + store datagrams, fetched with the real
+  IterativeValueFinder, and with the real server RPC + the client's rule): which announcers came back.
+  Every record is judged by TLC in DhtTrace.tla (one step per record)."""
 import collections
 import hashlib
 import ipaddress
@@ -30,8 +34,8 @@ from .detloop import DetLoop, FakeDatagramTransport, BudgetExceeded
 DAY = 86400
 TICK = 1024                    # records carry times in 1/1024 s (binary fractions: exact in floats)
 RPC_TIMEOUT = 5.0
-PAGER_PROBE_BUDGET = 1024      # a value lookup that sent more findValue requests than this to ONE peer is "not terminating"
-TINVS = ['THit', 'TNoHitAfter', 'TStoredSomewhere', 'TPagingComplete', 'TTerminates', 'TProbeOnce', 'TNodeResultsReplied',
+PAGER_PROBE_BUDGET = 400       # a value lookup that sent more findValue requests than this to ONE peer is "not terminating"
+TINVS = ['TNoLivelock', 'THit', 'TNoHitAfter', 'TStoredSomewhere', 'TPagingComplete', 'TTerminates', 'TProbeOnce', 'TNodeResultsReplied',
          'TNeverSelf', 'TValueWellFormed', 'TTokenRequired']
 
 
@@ -197,6 +201,8 @@ class Tap:
         self.by_rpc = {}
         self.replied = {}                  # (ip, port) -> first time a matching response datagram was delivered
         self.stores = []                   # (t, src, blob_hash, token)  store requests delivered here
+        self.per_dst = collections.Counter()   # find requests sent per destination
+        self.max_per_dst = 0
 
     def on_send(self, data, dst, t):
         m = peek(data)
@@ -209,6 +215,9 @@ class Tap:
                  'key': args[0] if args else None}
             self.requests.append(r)
             self.by_rpc[m['rpc_id']] = r
+            if r['method'] in ('findNode', 'findValue'):
+                self.per_dst[dst] += 1
+                self.max_per_dst = max(self.max_per_dst, self.per_dst[dst])
 
     def on_deliver(self, data, src, t):
         m = peek(data)
@@ -237,6 +246,8 @@ class World:
         import lbry.wallet  # noqa: F401  pylint: disable=unused-import,import-outside-toplevel
         from lbry.dht.peer import make_kademlia_peer
         make_kademlia_peer.cache_clear()
+        import random
+        random.seed(rng.getrandbits(64))      # routing_table picks its refresh ids from the global generator: keep runs replayable
         self.loop = DetLoop()
         self.rng = rng
         self.net = Net(self.loop, rng, max_delay, dup, loss)
@@ -262,11 +273,14 @@ class World:
         with self.loop:
             node.start('0.0.0.0', [bootstrap] if bootstrap else [])
 
-    def run_until(self, t, limit=60_000_000):
+    def run_until(self, t, limit=None):
+        """let virtual time pass; the step budget is proportional to the nodes and the time (an idle node costs ~5 steps per second)"""
+        if limit is None:
+            limit = 200_000 + int(max(0.0, t - self.loop.time()) * (len(self.nodes) + 1) * 25)
         with watchdog(900):
             self.loop.drain(limit=limit, until=t)
 
-    def run_task(self, coro, horizon, limit=20_000_000, stop=None):
+    def run_task(self, coro, horizon, limit=2_000_000, stop=None):
         """run one coroutine of product code until it completes, a virtual-time horizon or a step budget"""
         task = self.loop.spawn(coro)
         budget = False
@@ -451,7 +465,7 @@ def paging_run(ctx, n, seed, via='finder'):
     rec = {'kind': 'paging', 'via': via, 'n': n, 'acked': acked, 'seed': seed}
     tap = w.tap(C)
     if via == 'finder':
-        task, budget = w.run_task(value_lookup(C, key, shortlist=[make_kademlia_peer(S.protocol.node_id, *s_addr)]), 600)
+        task, budget = w.run_task(value_lookup(C, key, shortlist=[make_kademlia_peer(S.protocol.node_id, *s_addr)]), 60, stop=lambda: tap.max_per_dst > PAGER_PROBE_BUDGET)
         if not task.done() or budget:
             rec.update({'finished': False, 'returned': 0, 'extra': 0, 'requests': len(tap.requests), 'pages_claimed': -1})
             w.stop()
@@ -629,8 +643,8 @@ def lookup_run(rng, mode, roles, names=None, net=None, key_label='target', short
     out = []
     coro = (value_lookup if mode == 'value' else node_lookup)(X, key, shortlist=shortlist, out=out)
     t0 = w.loop.time()
-    horizon = RPC_TIMEOUT * (len(peers) + 40) * 3 + 600
-    task, budget = w.run_task(coro, horizon, limit=4_000_000, stop=lambda: any(len(p.seen) > PAGER_PROBE_BUDGET for p in peers))
+    horizon = 40000.0
+    task, budget = w.run_task(coro, horizon, limit=6_000_000, stop=lambda: tap.max_per_dst > PAGER_PROBE_BUDGET)
     t1 = w.loop.time()
     finished = task.done()
     exc = None
@@ -651,7 +665,7 @@ def lookup_run(rng, mode, roles, names=None, net=None, key_label='target', short
            't0': ticks(t0), 't1': ticks(t1, up=True), 'timeout': int(RPC_TIMEOUT * TICK), 'nprobes': len(probes),
            'max_same_probe': max(per.values()) if per else 0, 'max_per_peer': max(per_peer.values()) if per_peer else 0,
            'contacted': len(per_peer), 'replied': len([a for a in per_peer if a in tap.replied]), 'yielded': ys,
-           'stopped_by_probe_budget': any(len(p.seen) > PAGER_PROBE_BUDGET for p in peers), 'loop_exceptions': len(w.loop.exceptions)}
+           'stopped_by_probe_budget': tap.max_per_dst > PAGER_PROBE_BUDGET, 'loop_exceptions': len(w.loop.exceptions)}
     if not finished:
         task.cancel()
     w.stop()
@@ -692,17 +706,33 @@ class Network:
         w = self.w
         t0 = w.loop.time()
         task, budget = w.run_task(node.announce_blob(key.hex()), 300)
-        if not task.done() or budget:
-            raise MachineryError(f'announce_blob did not finish (n={self.n})')
+        self.ann_time = getattr(self, 'ann_time', {})
+        self.ann_time.setdefault(key, t0)
+        if not task.done() or budget:           # the product code did not come back within 300 virtual seconds / the step budget
+            task.cancel()
+            recs.append({'kind': 'announce', 'n': self.n, 'seed': self.seed, 'stored_to': -1, 'stored_seen': -1, 'want': min(8, self.n - 1),
+                         'rank_max': 0, 'converged': False, 't': ticks(t0), 'raised': 'announce_blob did not finish'})
+            self.announcements.setdefault(key, []).append(node)
+            return
         stored_to = task.result() if task.exception() is None else []
         w.run_until(w.loop.time() + (0.0 if w.net.max_delay == 0 else 1.0))      # let duplicates of the store requests land
         seen = {dst for dst, tap in w.net.taps.items() for (t, src, bh, _) in tap.stores if bh == key and src == node.verif_addr and t >= t0}
         others = [x.protocol.node_id for x in w.nodes if x is not node]
         want = min(8, self.n - 1)
+        converged = self.converged()
         recs.append({'kind': 'announce', 'n': self.n, 'seed': self.seed, 'stored_to': len(set(stored_to)), 'stored_seen': len(seen), 'want': want,
-                     'rank_max': xor_rank(key, others, set(stored_to)), 't': ticks(t0), 'raised': '' if task.exception() is None else repr(task.exception())})
+                     'rank_max': xor_rank(key, others, set(stored_to)), 'converged': converged, 't': ticks(t0), 'raised': '' if task.exception() is None else repr(task.exception())})
         self.announcements.setdefault(key, []).append(node)
         self.ctx.count(('announce', self.n, self.seed, key.hex()[:8]), nontrivial=True)
+
+    def converged(self):
+        """every node's routing table holds its K closest other nodes (what DhtStore.tla calls saturated, seen through get_peer)"""
+        for x in self.w.nodes:
+            xid = x.protocol.node_id
+            others = sorted((y.protocol.node_id for y in self.w.nodes if y is not x), key=lambda i: int.from_bytes(bytes(a ^ b for a, b in zip(i, xid)), 'big'))
+            if any(not x.protocol.routing_table.get_peer(i) for i in others[:8]):
+                return False
+        return True
 
     def store_times(self, key):
         return [t for tap in self.w.net.taps.values() for (t, src, bh, _) in tap.stores if bh == key]
@@ -717,11 +747,11 @@ class Network:
             tap = w.tap(node)
             out = []
             t0 = w.loop.time()
-            task, budget = w.run_task(value_lookup(node, key, out=out), 600, limit=4_000_000)
+            task, budget = w.run_task(value_lookup(node, key, out=out), 600, limit=1_000_000)
             t1 = w.loop.time()
             got = {(p.node_id, p.address, p.tcp_port) for batch in out for p in batch}
             want = {(a.protocol.node_id, a.protocol.external_ip, a.protocol.peer_port) for a in anns}
-            st = self.store_times(key)
+            st = self.store_times(key) or [self.ann_time[key]]      # nothing stored anywhere: the age counts from the announce call
             probes = [r for r in tap.requests if r['method'] == 'findValue' and r['key'] == key and r['t'] >= t0]
             per = collections.Counter((r['dst'], r['page']) for r in probes)
             ys = [{'o': [int(x) for x in p.address.split('.')], 'port': p.tcp_port if isinstance(p.tcp_port, int) else -1,
@@ -778,10 +808,19 @@ class Network:
 
 
 def network_run(ctx, n, seed, recs, cross_day=True, multi=0, sample=None):
+    """a network experiment; a scheduler-step budget exhausted by the product code (livelock) is a judged record"""
+    try:
+        return _network_run(ctx, n, seed, recs, cross_day, multi, sample)
+    except BudgetExceeded as e:
+        recs.append({'kind': 'livelock', 'n': n, 'seed': seed, 'what': str(e)})
+        return {'n': n, 'seed': seed, 'livelock': str(e)}
+
+
+def _network_run(ctx, n, seed, recs, cross_day=True, multi=0, sample=None):
     """warm up, announce (random delays; then at an exact instant), look up from every other node, cross 24 h"""
     net = Network(ctx, n, seed)
     w, rng = net.w, net.rng
-    w.run_until(4000)
+    w.run_until(4000 if n <= 12 else 12000)       # larger networks need the hourly refresh rounds to learn their nearest neighbours
     searchers = None
     if sample and n > sample:
         searchers = rng.sample(w.nodes, sample)
@@ -824,3 +863,239 @@ def network_run(ctx, n, seed, recs, cross_day=True, multi=0, sample=None):
     w.stop()
     return {'n': n, 'seed': seed, 'steps': w.loop.steps, 'datagrams': w.net.sent, 'loop_exceptions': exc,
             'table_sizes': sorted(len(x.protocol.routing_table.get_peers()) for x in w.nodes)}
+
+
+# ----------------------------------------------------------------------------------------------- Leg A: the models
+
+L_INV = ['TypeOK', 'Progress', 'Parallelism', 'ProbeDeadline', 'ProbeOncePerPage', 'TimeBound', 'NodeBound', 'NodeResultsRepliedOnly',
+         'NeverSelf', 'ValueResultsWellFormed']
+L_WIT = ['W_Closed', 'W_Yield', 'W_TimeoutPath', 'W_FullTime']
+S_INV = ['Hit', 'NoHitAfter', 'StoredAtClosest', 'Capacity']
+S_WIT = ['W_Found', 'W_Expired', 'W_Restamped', 'W_Boundary']
+
+
+def lookup_cfg(r, mode, invs, pagecap=0, maxpage=3, pagelimit=2, t=2, mark=True, filt=True, clearbad=True, maxc=None):
+    return tlc.make_cfg(constants={'R': r, 'ALPHA': 2, 'K': 2, 'T': t, 'MODE': mode, 'MAXC': maxc or r, 'PAGECAP': pagecap, 'MAXPAGE': maxpage,
+                                   'PAGELIMIT': pagelimit, 'MARK': mark, 'FILTER': filt, 'CLEARBAD': clearbad}, invariants=invs, deadlock=True)
+
+
+def store_cfg(nodes, keys, warm, invs, ge=False, day=2, maxt=3):
+    txt = tlc.make_cfg(constants={'B': 3, 'BOOT': nodes[0], 'K': 2, 'ALPHA': 2, 'DAY': day, 'MAXT': maxt if warm else 0, 'GE': ge, 'WARM': warm,
+                                  'PK': 8, 'FORMULA': 'found'}, invariants=invs)
+    return txt.replace('CONSTANTS\n', 'CONSTANTS\n  NodeIds = {%s}\n  KEYS = {%s}\n' % (', '.join(map(str, nodes)), ', '.join(map(str, keys))))
+
+
+def paging_cfg(formula, maxn=100):
+    return tlc.make_cfg(spec='PagingSpec', constants={'PK': 8, 'MAXN': maxn, 'FORMULA': formula},
+                        invariants=['PagingComplete', 'PagingAgrees', 'PagingTerminates'], constraint='EmitPaging')
+
+
+def model_jobs(ctx):
+    """(label, module, cfg, kwargs, expectation) -- expectation: 'hold' | ('violates', [names]) | ('violates-only', [names])"""
+    th = ctx.thorough
+    jobs = []
+    vinv = L_INV + ['BoundedPages', 'ValueBound']
+    jobs.append(('Lookup node R=%d' % (6 if th else 5), 'DhtLookup', lookup_cfg(6 if th else 5, 'node', L_INV), dict(workers=6), 'hold',
+                 ['StartRun', 'ReplyContacts', 'ReplyValueError', 'ReplyError', 'Timeout', 'Close', 'Tick']))
+    jobs.append(('Lookup value R=3 page cap 2', 'DhtLookup', lookup_cfg(3, 'value', vinv, pagecap=2), dict(workers=4), 'hold',
+                 ['StartRun', 'ReplyValue', 'ReplyValueError', 'ReplyError', 'Timeout', 'Close', 'Tick']))
+    if th:
+        jobs.append(('Lookup value R=4 page cap 2', 'DhtLookup', lookup_cfg(4, 'value', vinv, pagecap=2), dict(workers=8), 'hold', []))
+        jobs.append(('Lookup value R=5 page cap 1 T=1', 'DhtLookup', lookup_cfg(5, 'value', vinv, pagecap=1, maxpage=2, pagelimit=1, t=1), dict(workers=8), 'hold', []))
+    # the code as found: everything but the page bound holds; the hostile pager defeats the bound (known finding 2)
+    jobs.append(('Lookup value R=3 as found (no page cap)', 'DhtLookup', lookup_cfg(3, 'value', L_INV, pagecap=0, maxpage=2), dict(workers=4), 'hold', []))
+    small = dict(workers=2, coverage=False)
+    jobs.append(('Lookup value as found: BoundedPages', 'DhtLookup', lookup_cfg(3, 'value', ['BoundedPages'], pagecap=0), small, ('violates', ['BoundedPages']), []))
+    jobs.append(('Lookup value as found: ValueBound', 'DhtLookup', lookup_cfg(2, 'value', ['ValueBound'], pagecap=0), small, ('violates', ['ValueBound']), []))
+    # negative controls (mutants of the model)
+    jobs.append(('control: contacted not updated', 'DhtLookup', lookup_cfg(3, 'node', ['ProbeOncePerPage'], mark=False), small, ('violates', ['ProbeOncePerPage']), []))
+    jobs.append(('control: put_result without the replied filter', 'DhtLookup', lookup_cfg(3, 'node', ['NodeResultsRepliedOnly'], filt=False), small, ('violates', ['NodeResultsRepliedOnly']), []))
+    jobs.append(('control: bad page not dropped', 'DhtLookup', lookup_cfg(3, 'value', ['ValueResultsWellFormed'], clearbad=False), small, ('violates', ['ValueResultsWellFormed']), []))
+    for w in L_WIT:          # reachability witnesses, one run each (-continue reports one invariant per state)
+        jobs.append((f'witness {w}', 'DhtLookup', lookup_cfg(3, 'node', [w]), small, ('violates', [w]), []))
+    for w in ('W_Closed', 'W_Paged'):
+        jobs.append((f'witness value {w}', 'DhtLookup', lookup_cfg(3, 'value', [w], pagecap=2), small, ('violates', [w]), []))
+    # the network
+    warm = [([1, 2, 4, 5, 7], [0])] if not th else [([1, 2, 4, 5, 7], [0, 3, 6]), ([0, 1, 3, 6, 7], [2, 5]), ([2, 3, 4, 5, 6], [0, 7]), ([1, 2, 4, 7], [0, 3, 5, 6])]
+    for nodes, keys in warm:
+        jobs.append((f'Store warm nodes={nodes} keys={keys}', 'DhtStore', store_cfg(nodes, keys, True, S_INV), dict(workers=6), 'hold',
+                     ['Setup', 'Announce', 'Lookup', 'Reply', 'Exhausted', 'AnnounceDone', 'Tick']))
+    cold = [[1, 2, 4, 7]] if not th else [[1, 2, 4, 7], [1, 2, 4, 5, 7]]
+    for nodes in cold:
+        jobs.append((f'Store cold (join through bootstrap) nodes={nodes}', 'DhtStore', store_cfg(nodes, [0], False, S_INV), dict(workers=4), 'hold',
+                     ['Join', 'Refresh', 'Announce', 'Lookup', 'Reply', 'Exhausted']))
+    jobs.append(('witness: cold start reaches a saturated network', 'DhtStore', store_cfg([1, 2, 4, 7], [0], False, ['W_Saturated']), dict(workers=2, coverage=False), ('violates', ['W_Saturated']), []))
+    for w in S_WIT:
+        jobs.append((f'witness {w}', 'DhtStore', store_cfg([1, 2, 4, 7], [0], True, [w]), small, ('violates', [w]), []))
+    jobs.append(('control: expiry >= instead of >', 'DhtStore', store_cfg([1, 2, 4, 7], [0], True, ['NoHitAfter'], ge=True), dict(workers=4, coverage=False), ('violates', ['NoHitAfter']), []))
+    return jobs
+
+
+def run_models(ctx):
+    """all model runs, concurrently (TLC subprocesses), while the main thread drives the real code"""
+    from concurrent.futures import ThreadPoolExecutor
+    pool = ThreadPoolExecutor(max_workers=5)
+    futs = []
+    for k, (label, module, cfg, kw, expect, cover) in enumerate(model_jobs(ctx)):
+        kw = dict(kw)
+        kw.setdefault('timeout', 3000)
+        futs.append((label, expect, cover, pool.submit(tlc.run, module, cfg, ctx, label=f'm{k}', **kw)))
+    pfut = {f: pool.submit(tlc.run, 'MCDhtPaging', paging_cfg(f), ctx, label=f'paging-{f}', workers=1, cont=True, coverage=False) for f in ('found', 'ceiling')}
+    pool.shutdown(wait=False)
+    return futs, pfut
+
+
+def collect_models(ctx, futs, pfut):
+    import re
+    ok = True
+    for label, expect, cover, fut in futs:
+        res = fut.result()
+        ctx.add_tlc(res, label)
+        if expect == 'hold':
+            if res.violated or res.deadlock:
+                ctx.violation('model:' + (res.violated[0] if res.violated else 'deadlock'), f'{label}: model property violated', res.error_trace[:6000])
+                ok = False
+            elif not res.finished:
+                raise MachineryError(f'{label}: TLC did not finish')
+            if cover:
+                tlc.require_coverage(res, cover, label)
+        else:
+            missing = [v for v in expect[1] if v not in res.violated]
+            if missing:
+                raise MachineryError(f'{label}: expected violation of {missing} not produced (got {res.violated})')
+    expected = {}
+    for f, fut in pfut.items():
+        res = fut.result()
+        ctx.add_tlc(res, f'paging arithmetic n=1..100, K=8, formula {f}')
+        rows = {}
+        for ln in res.printed:
+            m = re.match(r'^<<"PAGING", (\d+), (\d+), (\d+), (\d+)>>', ln)
+            if m:
+                rows[int(m.group(1))] = {'got': int(m.group(2)), 'pages': int(m.group(3)), 'reqs': int(m.group(4))}
+        if sorted(rows) != list(range(1, 101)):
+            raise MachineryError(f'paging model {f}: {len(rows)} rows emitted')
+        bad = sorted(n for n, r in rows.items() if r['got'] != n)
+        viol = 'PagingComplete' in res.violated
+        if viol != bool(bad) or any(v != 'PagingComplete' for v in res.violated):
+            raise MachineryError(f'paging model {f}: violated={res.violated} but incomplete n={bad}')
+        expected[f] = {'rows': rows, 'loses': bad}
+    if expected['found']['loses'] != [89, 97, 98] or expected['ceiling']['loses']:
+        raise MachineryError(f"paging model: unexpected loss sets {expected['found']['loses']} / {expected['ceiling']['loses']}")
+    ctx.leg('A', lookup_invariants=L_INV + ['BoundedPages', 'ValueBound'], store_invariants=S_INV,
+            paging={'formula as found loses announcers at n': expected['found']['loses'], 'ceiling division loses at n': expected['ceiling']['loses']},
+            model_exhibits_unbounded_paging='PAGECAP=0 violates BoundedPages and ValueBound (a responsive hostile pager)',
+            negative_controls=['MARK=FALSE violates ProbeOncePerPage', 'FILTER=FALSE violates NodeResultsRepliedOnly',
+                               'CLEARBAD=FALSE violates ValueResultsWellFormed', 'GE=TRUE violates NoHitAfter'])
+    return ok, expected
+
+
+# ----------------------------------------------------------------------------------------------- Leg C orchestration
+
+PAGERS = {'v-pager', 'v-pager-with-contacts'}
+
+
+def lookup_scenarios(ctx):
+    """(mode, roles, kwargs)"""
+    import random
+    rng = random.Random(ctx.seed * 31 + 5)
+    names = sorted(hostile_catalogue(rng, [b'', b'', 0], b'', lambda: []).keys())
+    out = []
+    for mode in ('node', 'value'):
+        for nm in names:                                  # every catalogue entry: alone, and next to an honest and a dead peer
+            out.append((mode, [nm], {}))
+            out.append((mode, [nm, 'honest', 'dead'], {}))
+        for n in (0, 1, 2, 5, 6, 9, 14, 20):              # nothing but dead nodes
+            out.append((mode, ['dead'] * n, {}))
+        for n in (1, 3, 8, 12):
+            out.append((mode, ['honest'] * n, {}))
+        out.append((mode, ['slow', 'late', 'honest'], {}))
+        out.append((mode, ['late'] * 3, {}))
+        out.append((mode, ['slow'] * 3, {}))
+        # every assignment of honest / dead / hostile to four peers
+        import itertools
+        for combo in itertools.product(['honest', 'dead', 'H'], repeat=4 if ctx.thorough else 3):
+            roles = [rng.choice(names) if c == 'H' else c for c in combo]
+            out.append((mode, roles, {}))
+        # only part of the population in the shortlist, the rest is learnt from honest peers
+        for _ in range(60 if ctx.thorough else 8):
+            n = rng.randrange(4, 15)
+            roles = [rng.choice(['honest', 'honest', 'dead', 'holder', 'slow', 'late'] + names) for _ in range(n)]
+            roles[0] = 'honest'
+            out.append((mode, roles, {'shortlist_n': rng.randrange(1, 4)}))
+        # lossy networks
+        for _ in range(150 if ctx.thorough else 12):
+            n = rng.randrange(2, 13)
+            roles = [rng.choice(['honest', 'honest', 'honest', 'dead', 'holder'] + names) for _ in range(n)]
+            out.append((mode, roles, {'net': {'delay': rng.choice([0.0, 0.05, 1.0, 2.25]), 'dup': rng.choice([0.0, 0.1, 0.5]), 'loss': rng.choice([0.0, 0.1, 0.3, 0.6])},
+                                      'real_honest': rng.choice([0, 0, 1, 2])}))
+    # node lookup for the id of a peer of the scenario (check_result_ready's early finish)
+    return out
+
+
+def classify(rec, inv):
+    if rec['kind'] == 'paging':
+        return 'find_value-page-count-loses-announcers'
+    if rec['kind'] == 'lookup' and inv == 'TTerminates' and rec['mode'] == 'value' and any(r in PAGERS for r in rec['roles']):
+        return 'value-lookup-follows-pages-without-bound'
+    return f"{rec['kind']}-{inv}"
+
+
+def run(ctx):
+    import random
+    futs, pfut = run_models(ctx)
+    recs = []
+    # ---- paging on one real storing node
+    ns = list(range(1, 101))
+    for n in ns:
+        recs.append(paging_run(ctx, n, ctx.seed + 1, 'finder'))
+        ctx.count(('paging', 'finder', n), nontrivial=n > 8)
+    for n in (ns if ctx.thorough else [1, 8, 9, 16, 17, 64, 72, 88, 89, 90, 96, 97, 98, 99, 100]):
+        recs.append(paging_run(ctx, n, ctx.seed + 2, 'rpc'))
+        ctx.count(('paging', 'rpc', n), nontrivial=n > 8)
+    ctx.leg('C-paging', runs=len(recs))
+    # ---- lookups against dead / hostile peers
+    rng = random.Random(ctx.seed * 17 + 3)
+    scen = lookup_scenarios(ctx)
+    for mode, roles, kw in scen:
+        recs.append(lookup_run(rng, mode, roles, **kw))
+        ctx.count(('lookup', mode, tuple(roles), repr(sorted(kw.items()))), nontrivial=len(roles) > 0)
+    ctx.leg('C-lookup', runs=len(scen))
+    # ---- honest networks
+    nets = [(2, True, 1, None), (5, True, 3, None), (12, True, 6, None)] if not ctx.thorough else \
+        [(2, True, 1, None), (3, True, 2, None), (5, True, 3, None), (8, True, 5, None), (12, True, 8, None), (20, False, 12, None), (40, True, 20, 12), (40, False, 30, None)]
+    infos = []
+    for k, (n, cross, multi, sample) in enumerate(nets):
+        infos.append(network_run(ctx, n, ctx.seed + k, recs, cross_day=cross, multi=multi, sample=sample))
+    ctx.leg('C-network', networks=infos)
+    # ---- judgement
+    ok, expected = collect_models(ctx, futs, pfut)
+    c = tlc.make_cfg(spec='TSpec', invariants=TINVS, constraint='Reached', postcondition='Report')
+    verdicts = tlc.validate_traces('DhtTrace', c, recs, ctx, label='DhtTrace', chunk=400, timeout=1800, deque=False)
+    for v in verdicts:
+        if v['invariant']:
+            rec = recs[v['tid']]
+            small = {k2: v2 for k2, v2 in rec.items() if k2 != 'yielded'}
+            small['n_yielded'] = len(rec.get('yielded', []))
+            ctx.violation(classify(rec, v['invariant']), f"clause {v['invariant']} violated by a real run: {small}", rec)
+    ctx.cov['traces_validated_against_impl'] += len(recs)
+    # ---- spec drift (NOTE only): the paging numbers of the real node against the two transcribed formulas
+    variant = {f: all(r['returned'] == expected[f]['rows'][r['n']]['got'] and r['pages_claimed'] == expected[f]['rows'][r['n']]['pages']
+                      and r['requests'] == expected[f]['rows'][r['n']]['reqs']
+                      for r in recs if r['kind'] == 'paging' and r['finished']) for f in ('found', 'ceiling')}
+    if not any(variant.values()):
+        print('NOTE: spec drift: the page counts / returned announcers of the real node match neither transcribed formula', flush=True)
+    ctx.leg('C-paging', real_code_matches_formula=[f for f, v in variant.items() if v])
+    for r in [x for x in recs if x['kind'] == 'paging'][88:90] + [x for x in recs if x['kind'] == 'lookup'][5:7] + [x for x in recs if x['kind'] == 'hit'][:2]:
+        ctx.sample({k2: (v2 if k2 != 'yielded' else v2[:3]) for k2, v2 in r.items()})
+    ctx.cov['rule'] = ('Leg A: all states of DhtLookup.tla (node and value lookups, every reply kind at every probe), of DhtStore.tla for every '
+                       'saturated table assignment of the listed node-id sets plus the cold join, and the page arithmetic for every n <= 100. '
+                       'Leg C: one record per real experiment -- paging n = 1..100 on one real node through real datagrams and the real finder; '
+                       'every entry of the hostile catalogue alone and next to honest/dead peers, all honest/dead/hostile assignments, dead-only '
+                       'populations, lossy networks; real networks of 2..40 nodes with announcements at random and at exact instants and value '
+                       'lookups from every other node fresh, 30 s before, 1/1024 s before, exactly at and 400 s after 24 h. '
+                       'Distinct = distinct (experiment kind, parameters).')
+    ctx.assumptions += ['UDP is replaced by a driver-controlled in-process datagram network; a real node reads one datagram per loop iteration as a selector transport does',
+                        'time is virtual (DetLoop): rpc_timeout 5 s, 24 h and the 300 s ping delay are exact; the hit guarantee is judged after a warm-up of 4000 virtual seconds with network delays <= 0.2 s',
+                        f'a value lookup that sent more than {PAGER_PROBE_BUDGET} findValue requests to one peer without finishing is judged as not terminating',
+                        'peer identity in results: (node id, IPv4 address, tcp port) of the announcer',
+                        'every probe-level nondeterministic reply of DhtLookup.tla subsumes "every subset of nodes dead or hostile"; K=2, ALPHA=2 in the models, K=8, ALPHA=5 in the code']
